@@ -123,45 +123,38 @@ theorem catRes_ok {γ : Type} (f : α → List γ) : ∀ (l : List α), catRes (
   | [] => rfl
   | x :: r => by simp [catRes, catRes_ok f r]
 
-theorem filter_sig_eq (isRoot : Bool) (s : List (Meta × β)) (hw : ∀ k ∈ s, wfNameB k.1 = true)
-    (hn : isRoot = false → ∀ k ∈ s, isSig k.1 = false) :
-    s.filter (fun k => !isSig k.1) = s.filter (fun k => !(isRoot && Spec.MsiDigest.isSignatureStream k.1)) := by
+theorem filter_sig_eq (isRoot : Bool) (s : List (Meta × β)) (hw : ∀ k ∈ s, wfNameB k.1 = true) :
+    s.filter (fun k => !(isRoot && isSig k.1)) = s.filter (fun k => !(isRoot && Spec.MsiDigest.isSignatureStream k.1)) := by
   apply List.filter_congr
   intro k hk
-  cases isRoot with
-  | true => simp [isSig_wf k.1 (wfName_of_B k.1 (hw k hk))]
-  | false => simp [hn rfl k hk]
+  rw [isSig_wf k.1 (wfName_of_B k.1 (hw k hk))]
 
-theorem hashDirOf_eq (isRoot : Bool) (clsid : Bytes) (l : List (Meta × Bytes)) (hs : SibsOk (l.map (·.1)))
-    (hn : isRoot = false → ∀ k ∈ l, isSig k.1 = false) :
-    hashDirOf clsid (l.map okify) = .ok (Spec.MsiDigest.dirInput isRoot clsid l) := by
+theorem hashDirOf_eq (isRoot : Bool) (clsid : Bytes) (l : List (Meta × Bytes)) (hs : SibsOk (l.map (·.1))) :
+    hashDirOf isRoot clsid (l.map okify) = .ok (Spec.MsiDigest.dirInput isRoot clsid l) := by
   unfold hashDirOf Spec.MsiDigest.dirInput
   rw [sortItems_eq_digestOrder l hs]
   simp only [Res.bind_ok', Res.pure_eq]
   have hmem : ∀ k ∈ Spec.MsiDigest.digestOrder l, k ∈ l := fun k hk => (digestOrder_perm l).subset hk
-  have hf : ((Spec.MsiDigest.digestOrder l).map okify).filter (fun it => !isSig it.1) =
-      ((Spec.MsiDigest.digestOrder l).filter (fun k => !isSig k.1)).map okify := by
+  have hf : ((Spec.MsiDigest.digestOrder l).map okify).filter (fun it => !(isRoot && isSig it.1)) =
+      ((Spec.MsiDigest.digestOrder l).filter (fun k => !(isRoot && isSig k.1))).map okify := by
     rw [List.filter_map]; rfl
-  rw [hf, filter_sig_eq isRoot _ (fun k hk => hs.1 k.1 (List.mem_map_of_mem (hmem k hk)))
-    (fun hr k hk => hn hr k (hmem k hk))]
+  rw [hf, filter_sig_eq isRoot _ (fun k hk => hs.1 k.1 (List.mem_map_of_mem (hmem k hk)))]
   rw [List.map_map]
   have : ((fun x : Item Bytes => x.2) ∘ okify) = fun x : Meta × Bytes => Res.ok ((·.2) x) := rfl
   rw [this, catRes_ok]
   rfl
 
 theorem prehashDirOf_eq (isRoot : Bool) (m : Meta) (l : List (Meta × Bytes)) (hs : SibsOk (l.map (·.1)))
-    (hn : isRoot = false → ∀ k ∈ l, isSig k.1 = false)
     (hm : prehashDirent m = .ok (Spec.MsiDigest.metaInput m isRoot)) :
-    prehashDirOf m (l.map okify) = .ok (Spec.MsiDigest.dirMetaInput m isRoot l) := by
+    prehashDirOf isRoot m (l.map okify) = .ok (Spec.MsiDigest.dirMetaInput m isRoot l) := by
   unfold prehashDirOf Spec.MsiDigest.dirMetaInput
   rw [sortItems_eq_digestOrder l hs, hm]
   simp only [Res.bind_ok', Res.pure_eq]
   have hmem : ∀ k ∈ Spec.MsiDigest.digestOrder l, k ∈ l := fun k hk => (digestOrder_perm l).subset hk
-  have hf : ((Spec.MsiDigest.digestOrder l).map okify).filter (fun it => !isSig it.1) =
-      ((Spec.MsiDigest.digestOrder l).filter (fun k => !isSig k.1)).map okify := by
+  have hf : ((Spec.MsiDigest.digestOrder l).map okify).filter (fun it => !(isRoot && isSig it.1)) =
+      ((Spec.MsiDigest.digestOrder l).filter (fun k => !(isRoot && isSig k.1))).map okify := by
     rw [List.filter_map]; rfl
-  rw [hf, filter_sig_eq isRoot _ (fun k hk => hs.1 k.1 (List.mem_map_of_mem (hmem k hk)))
-    (fun hr k hk => hn hr k (hmem k hk))]
+  rw [hf, filter_sig_eq isRoot _ (fun k hk => hs.1 k.1 (List.mem_map_of_mem (hmem k hk)))]
   rw [List.map_map]
   have : ((fun x : Item Bytes => x.2) ∘ okify) = fun x : Meta × Bytes => Res.ok ((·.2) x) := rfl
   rw [this, catRes_ok]
@@ -214,11 +207,11 @@ theorem prehashDirent_root (m : Meta) (ht : m.typ = typRoot) :
 def metas (ks : List Node) : List Meta := ks.map Node.meta
 
 mutual
-/-- hypothesis on a tree: in every storage the children have well-formed, pairwise distinct names; below the
-    root no entry carries one of the two signature names -/
+/-- hypothesis on a tree: in every storage the children have well-formed, pairwise distinct names.  (Before the
+    repair of Fmsi-tar the walk skipped the signature names in every storage and the hypothesis also excluded such names
+    below the root; the flag is kept for the statements' sake, nothing depends on it any more.) -/
 def Node.okAt : Bool → Node → Prop
-  | isRoot, .mk _ _ kids =>
-    SibsOk (metas kids) ∧ (isRoot = false → ∀ k ∈ metas kids, isSig k = false) ∧ Nodes.ok kids
+  | _, .mk _ _ kids => SibsOk (metas kids) ∧ Nodes.ok kids
 def Nodes.ok : List Node → Prop
   | [] => True
   | n :: r => Node.okAt false n ∧ Nodes.ok r
@@ -245,9 +238,8 @@ mutual
 theorem hashItem_eq : ∀ (n : Node), Node.okAt false n → hashItem n = okify (Spec.MsiDigest.entryInput n)
   | .mk m c kids, h => by
     rw [Node.okAt] at h
-    rw [hashItem, Spec.MsiDigest.entryInput, hashItems_eq kids h.2.2,
-      hashDirOf_eq false m.clsid _ (by rw [entriesInput_fst]; exact h.1)
-        (fun hr k hk => h.2.1 hr k.1 (mem_fst_of_map (entriesInput_fst kids) k hk))]
+    rw [hashItem, Spec.MsiDigest.entryInput, hashItems_eq kids h.2,
+      hashDirOf_eq false m.clsid _ (by rw [entriesInput_fst]; exact h.1)]
     unfold okify typStream typStorage
     by_cases h2 : m.typ = 2
     · simp [h2]
@@ -269,8 +261,8 @@ theorem hashMsiDir_eq (root : Node) (h : Node.okAt true root) :
     rw [Node.okAt] at h
     unfold hashMsiDir Spec.MsiDigest.hashInput
     simp only [Node.meta, Node.kids]
-    rw [hashItems_eq kids h.2.2]
-    exact hashDirOf_eq true m.clsid _ (by rw [entriesInput_fst]; exact h.1) (fun hr => by cases hr)
+    rw [hashItems_eq kids h.2]
+    exact hashDirOf_eq true m.clsid _ (by rw [entriesInput_fst]; exact h.1)
 
 theorem sibs_typ {ms : List Meta} (h : SibsOk ms) : ∀ m ∈ ms, WfName m := fun m hm => wfName_of_B m (h.1 m hm)
 
@@ -280,14 +272,13 @@ theorem prehashItem_eq : ∀ (n : Node), Node.okAt false n → WfName n.meta →
   | .mk m c kids, h, hw => by
     rw [Node.okAt] at h
     simp only [Node.meta] at hw
-    rw [prehashItem, Spec.MsiDigest.entryMeta, prehashItems_eq kids h.2.2 (sibs_typ h.1)]
+    rw [prehashItem, Spec.MsiDigest.entryMeta, prehashItems_eq kids h.2 (sibs_typ h.1)]
     by_cases h2 : m.typ = typStream
     · have key := prehashDirent_wf m hw (Or.inl h2)
       unfold typStream at h2
       simp only [okify, typStream, h2, if_true, key]
     · by_cases h1 : m.typ = typStorage
       · have key := prehashDirOf_eq false m _ (by rw [entriesMeta_fst]; exact h.1)
-          (fun hr k hk => h.2.1 hr k.1 (mem_fst_of_map (entriesMeta_fst kids) k hk))
           (prehashDirent_wf m hw (Or.inr h1))
         unfold typStorage at h1
         rw [key]
@@ -311,9 +302,8 @@ theorem prehashMsiDir_eq (root : Node) (h : Node.okAt true root) (hr : root.meta
     rw [Node.okAt] at h
     unfold prehashMsiDir Spec.MsiDigest.prehashInput
     simp only [Node.meta, Node.kids] at hr ⊢
-    rw [prehashItems_eq kids h.2.2 (sibs_typ h.1)]
-    exact prehashDirOf_eq true m _ (by rw [entriesMeta_fst]; exact h.1) (fun hr => by cases hr)
-      (prehashDirent_root m hr)
+    rw [prehashItems_eq kids h.2 (sibs_typ h.1)]
+    exact prehashDirOf_eq true m _ (by rw [entriesMeta_fst]; exact h.1) (prehashDirent_root m hr)
 
 /-! ### only the non-signature children matter -/
 
@@ -362,7 +352,7 @@ theorem sibsOkB_sound (ms : List Meta) (h : sibsOkB ms = true) : SibsOk ms := by
 
 mutual
 def okAtB : Bool → Node → Bool
-  | isRoot, .mk _ _ kids => sibsOkB (metas kids) && (isRoot || (metas kids).all (fun k => !isSig k)) && okAllB kids
+  | _, .mk _ _ kids => sibsOkB (metas kids) && okAllB kids
 def okAllB : List Node → Bool
   | [] => true
   | n :: r => okAtB false n && okAllB r
@@ -372,13 +362,9 @@ mutual
 theorem okAtB_sound : ∀ (isRoot : Bool) (n : Node), okAtB isRoot n = true → Node.okAt isRoot n
   | isRoot, .mk m c kids, h => by
     rw [okAtB] at h
-    simp only [Bool.and_eq_true, Bool.or_eq_true, List.all_eq_true, Bool.not_eq_true'] at h
+    simp only [Bool.and_eq_true] at h
     rw [Node.okAt]
-    refine ⟨sibsOkB_sound _ h.1.1, ?_, okAllB_sound kids h.2⟩
-    intro hr k hk
-    rcases h.1.2 with h' | h'
-    · rw [hr] at h'; cases h'
-    · exact h' k hk
+    exact ⟨sibsOkB_sound _ h.1, okAllB_sound kids h.2⟩
 theorem okAllB_sound : ∀ (ks : List Node), okAllB ks = true → Nodes.ok ks
   | [], _ => by rw [Nodes.ok]; trivial
   | n :: r, h => by
